@@ -176,6 +176,7 @@ pub fn trunc(s: &str, n: usize) -> String {
 
 /// Silence the default panic printer (panics are expected outcomes in the boundary streams).
 pub fn quiet_panics() {
+    if std::env::var("YV_LOUD").is_ok() { return; }   // debugging aid: keep the default panic printer
     std::panic::set_hook(Box::new(|_| {}));
 }
 
